@@ -1,6 +1,7 @@
 import AsyncVerif.Impl.Aggregations
 import AsyncVerif.Proofs.Core
 import AsyncVerif.Proofs.TwinMore
+import AsyncVerif.Proofs.Chain
 /-!
 # C05 — laziness: sources pulled and callables invoked in the stdlib's order
 
@@ -78,6 +79,12 @@ theorem C05_cycle (s fuel : Nat) : Twin (Impl.cycle s fuel) (Std.cycle s fuel) :
 theorem C05_merge (fn : Option Nat) (reverse : Bool) (srcs : List Nat) (fuel : Nat) :
     Twin (Impl.merge fn reverse srcs fuel) (Std.merge fn reverse srcs fuel) :=
   tryFinally_twin _ _ (closeAll_quiet srcs)
+
+/-- `chain`: every input in its own scope, then on to the next one; the handle's `aclose()` closes owned
+    iterators.  Proved through a relation between the two runs' worlds (`VR`), since after the first
+    input they differ (closed vs. merely exhausted). -/
+theorem C05_chain (srcs : List Nat) (fuel : Nat) : Twin (Impl.chain srcs fuel) (Std.chain srcs fuel) :=
+  chain_twin srcs fuel
 
 /-- `dropwhile`: asyncstdlib's two loops over one iterator = `dropwhile_next`'s single loop with a flag -/
 theorem C05_dropwhile (f s fuel : Nat) : Twin (Impl.dropwhile f s fuel) (Std.dropwhileLoop f s false fuel) := by
